@@ -245,6 +245,11 @@ def run(ctx):
     for name, data in round5.items():
         (docdir / name).write_bytes(data)
         docs["gen:" + name] = {"path": str(docdir / name), "cls": "plain", "f": "", "g": []}
+    # 7z with duplicate member names (one extraction pass per duplicate; also with a failure in a later / the
+    # first pass), a 7z inside a zip, a mail with such attachments
+    for name, data in c15_docs.rare_path_archives().items():
+        (docdir / name).write_bytes(data)
+        docs["gen:" + name] = {"path": str(docdir / name), "cls": "plain", "f": "", "g": []}
     round4 = dict(c15_docs.markup_docs())                      # sloppy / clean html, mhtml, epub
     round4.update(c15_docs.repacked_variants(res_root))        # second documents sharing all part names
     round4["enc-header.7z"] = c15_docs.make_7z_encrypted_header()      # refused: header flagged 7zAES
@@ -299,7 +304,8 @@ def run(ctx):
                     fams.setdefault(_family(docs[d]["path"]), {})[d] = docs[d]["path"]
             for fam, members in sorted(fams.items()):
                 (sc / f"conc-{fam}.in.json").write_text(json.dumps({
-                    "seed": ctx.seed, "family": fam, "docs": members, "threads": 6, "reps": 3 if ctx.thorough else 2}))
+                    "seed": ctx.seed, "family": fam, "docs": members, "threads": 6, "reps": 3 if ctx.thorough else 2,
+                    "tmp": str(sc / f"tmp-conc-{fam}")}))
                 f_conc.append((fam, ex.submit(_spawn, ["conc", sc / f"conc-{fam}.in.json", sc / f"conc-{fam}.out.json"])))
         f_base = [ex.submit(_spawn, ["base", sc / "docs.json", d, sc / f"tmp-base-{i}"])
                   for i, d in enumerate(doc_ids)]
@@ -589,6 +595,11 @@ def run(ctx):
                         where="extractor of that format")
         if o["errors"]:
             v.violation(what=f"family {fam}: worker thread crashed: {o['errors'][:2]}", case={"family": fam})
+        rs = o["residue"]                          # (AES provider functions: finding KF-C15-01, judged in the histories)
+        if not all(rs[k_] for k_ in ("fns", "cfg", "tmp", "fds")) or rs["reg"] == "partial":
+            v.violation(what=f"family {fam}: after the twin and concurrent extractions process-global state is not "
+                             f"back (whole private temp root, config, open files, third-party functions, registry): {rs}",
+                        case={"family": fam}, where="module-level state / temp files of that extractor family")
         ev.replayed(len(sigs))
     # events of the recorded histories (projection: class of the document, outcome, resolved glyph ids,
     # digest equal to the isolated one)
@@ -973,9 +984,12 @@ def _worker_conc(inp, out):
     _quiet()
     import threading
     job = json.loads(Path(inp).read_text())
+    _prep_tmp(job["tmp"])
     from .. import repo
     repo.activate()
     import sharepoint2text
+    import pypdf._crypt_providers._fallback  # noqa
+    residue = _Residue(job["tmp"])
     ids = sorted(job["docs"], key=lambda d: (not d.startswith("gen:"), d))
     # 1. in-flight twin: first extraction suspended after its first result, second one complete
     twin = []
@@ -1026,7 +1040,8 @@ def _worker_conc(inp, out):
                 break
     finally:
         sys.setswitchinterval(old)
-    Path(out).write_text(json.dumps({"sigs": sigs, "twin": twin, "errors": errors, "rounds": rounds}))
+    Path(out).write_text(json.dumps({"sigs": sigs, "twin": twin, "errors": errors, "rounds": rounds,
+                                     "residue": residue.read()}))
 
 
 def _worker_aes(inp, out):
